@@ -11,7 +11,8 @@
    when none was supplied — rounded down to a millisecond) from 0.10 on, no timestamp below 0.10 (message format v0). *)
 From Coq Require Import List ZArith Bool.
 From SV Require Import Wire.Bytes Wire.Prim Wire.PushPop Wire.PrimProofs Wire.Records Wire.BatchProofs
-  C04.Model C04.Proofs C04.ProofsWire C04.ProofsProducer C04.Examples.
+  C04.Model C04.Proofs C04.ProofsWire C04.ProofsProducer C04.ProofsDec C04.Examples.
+From SV Require Gen.DecTypes Gen.DecC17.
 From SV Require Producer.Msg Producer.Compose.
 Import ListNotations.
 Open Scope Z_scope.
@@ -108,6 +109,20 @@ Theorem c04_partition_message_spec : forall consistent all writable ch q,
                        0 <= i < len partitions /\ nth_error partitions (Z.to_nat i) = Some q.
 Proof. exact partition_message_spec. Qed.
 Print Assumptions c04_partition_message_spec.
+
+(* The routing model is the code: the two decision slices of topicProducer.partitionMessage that go/decgen regenerates from
+   the source on every run (coq/Gen/DecC17.v; checks/c04.py runs run_decgen(c, "C17")) compute [partition_message]. *)
+Theorem c04_tie_partition_pick : forall consistent parts ch cur err, len parts < 2147483648 ->
+  routed_of (SV.Gen.DecC17.partition_pick err cur parts (choice_val ch) (choice_err ch)) =
+  partition_message consistent (inl parts) (inl parts) ch.
+Proof. exact tie_partition_pick. Qed.
+Print Assumptions c04_tie_partition_pick.
+
+Theorem c04_tie_partition_source : forall partitions err dyn msg_requires requires all_parts all_err wr_parts wr_err,
+  SV.Gen.DecC17.partition_source partitions err dyn msg_requires requires all_parts all_err wr_parts wr_err =
+  (if (if dyn then msg_requires else requires) then (all_parts, all_err) else (wr_parts, wr_err), SV.Gen.DecTypes.ExFall).
+Proof. exact tie_partition_source. Qed.
+Print Assumptions c04_tie_partition_source.
 
 (* Nothing is added: the records appended are the images of the set's messages, one each, at base .. base+n-1, and every
    one of them is the image of a message handed to add for that partition. *)
